@@ -517,9 +517,16 @@ func (i *IfUnless) Evaluation(
 
 			i.ifNarrowTs = make(map[string][]base.T)
 
-			_, err := i.getBackupContext(e, *p, ctx)
+			// variables first tested in an elsif condition are restored after
+			// the conditional like those of the if condition (deferred calls
+			// run last-in first-out, so the if's own restores still win)
+			elsifZaoriks, err := i.getBackupContext(e, *p, ctx)
 			if err != nil {
 				p.Fatal(ctx, err)
+			}
+
+			for _, zaorik := range elsifZaoriks {
+				defer zaorik()
 			}
 
 			resultTs = append(resultTs, p.GetLastEvaluatedT())
